@@ -94,6 +94,8 @@ func main() {
 		runClock(c)
 	case "C11":
 		runC11proc(c)
+	case "C10":
+		runC10proc(c)
 	default:
 		fmt.Println("unknown property for vproc:", *prop)
 		os.Exit(2)
